@@ -21,6 +21,7 @@ DEVS = {
     "DevTransitDerives":     ("C04", "TransitNeverHoldsKey", {}),
     "DevDataBeforeKey":      ("C04", "NoDataBeforeKey", {"k1": ["udp"], "k2": [], "maxdata": 1, "life": True}),
     "DevSealAfterKeyWipe":   ("C04", "TransitSeesOnlyCiphertext", {"k1": ["tcp-ip"], "k2": [], "maxdata": 1, "life": True}),
+    "DevPlainAfterKeyCleared": ("C04", "TransitSeesOnlyCiphertext", {"k1": ["udp"], "k2": [], "maxdata": 1, "life": True}),
 }
 HFILES = ["common/common_test.go.tmpl", "agent/cmesh_test.go", "agent/keys_test.go"]
 
@@ -213,7 +214,7 @@ def classify(ctx, nt, seg, idx, name):
     idx = 1-based index of the rejected event inside the scenario."""
     out = []
     ev = seg[idx - 1] if 0 < idx <= len(seg) else {}
-    data_devs = ("DevPlaintextFallback", "DevDataBeforeKey", "DevSealAfterKeyWipe")
+    data_devs = ("DevPlaintextFallback", "DevDataBeforeKey", "DevSealAfterKeyWipe", "DevPlainAfterKeyCleared")
     for d in DEVS:
         if (ev.get("ev") in ("Data", "Recv")) != (d in data_devs):
             continue
